@@ -58,6 +58,25 @@ class SentTok(SymVal):
         raise Outside(f'sentence.{name}')
     def sym_iter(self, it): return list(self.parts)
 
+class WorldV(SymVal):
+    "a world of the model: accessible from the evaluation world (index into the family) or not (index None)"
+    def __init__(self, index): self.index = index
+    def __repr__(self): return f'w{self.index}' if self.index is not None else 'w-inaccessible'
+    def sym_truth(self, it): return True
+
+class AccessV(SymVal):
+    """Model.R read directly: R[w] for the evaluation world = the accessible worlds (one per family member); iterating R = every
+    world of the model = those plus one world that is not accessible from the evaluation world"""
+    def __init__(self, model): self.m = model
+    def sym_getitem(self, it, w):
+        if self.m.family is None: raise Outside('Model.R outside a modal clause')
+        if self.m.eval_world is not None and not (w is self.m.eval_world or w == self.m.eval_world): raise Outside('Model.R[w] for another world than the one asked about')
+        return GenList([WorldV(i) for i in range(len(self.m.family))])
+    def sym_iter(self, it):
+        if self.m.family is None: raise Outside('Model.R outside a modal clause')
+        return [WorldV(i) for i in range(len(self.m.family))] + [WorldV(None)]
+    def sym_len(self, it): return len(self.m.family) + 1
+
 class EvalModel(SymVal):
     INLINE = ('value_of_operated', 'value_of_quantified', '_unquantify_values', '_unmodal_values', '_check_finished', 'value_of_atomic', 'value_of_opaque', 'value_of_predicated', 'value_of', 'is_sentence_opaque')
     def __init__(self, logic, part_values=None, family=None):
@@ -67,6 +86,9 @@ class EvalModel(SymVal):
         self.family = family                     # values of the instances / accessible worlds (list of ValName)
         self.inlined = {}
         self.kw_seen = []                         # keyword arguments the callees under contract received (the world must be forwarded)
+        self.worlds_asked = []                    # worlds of the model at which an override evaluated the operand itself
+        self.inaccessible_top = True              # value of the operand at the inaccessible world: top (set False for bottom)
+        self.eval_world = None                    # the world the clause is asked about (set by the obligation)
         order = sorted(logic.Meta.values, key=lambda v: v.value)
         self.order = [v.name for v in order]
     def sym_getattr(self, it, name):
@@ -77,8 +99,16 @@ class EvalModel(SymVal):
         if name == 'minval': return ValName(self.order[0])
         if name == 'valseq': return tuple(ValName(v.name) for v in self.logic.Meta.values)
         if name == 'values': return ValuesV(self.logic)
+        if name == 'R': return AccessV(self)
         if name == 'value_of':
             def vo(it, s, **kw):
+                w = kw.get('world')
+                if isinstance(w, WorldV) and self.family is not None:
+                    # the operand of a modal sentence at a world of the model: an accessible one has the family's value; the
+                    # world that is NOT accessible from the evaluation world has the value that would show in the result
+                    self.worlds_asked.append(w)
+                    if w.index is not None: return self.family[w.index]
+                    return ValName(self.order[-1] if self.inaccessible_top else self.order[0])
                 self.kw_seen.append(('value_of', dict(kw)))
                 if id(s) in self.part_values: return self.part_values[id(s)]
                 raise Outside('value_of on an unknown part')
